@@ -25,7 +25,8 @@ clause -- the damage shows up in the property's own post-conditions on the real 
            subgraph_centrality, makerandCIJ_und / makerandCIJ_dir) is run to completion on the very same leading
            arguments (its remaining options as in its own last call): state shared between two routines of a
            family (a common memo, a cached mask) is then set up by the sibling.
-  spell    Python bool options are passed as np.bool_ or 0 / 1 on two calls out of three.
+  spell    Python bool options are passed as np.bool_ or 0 / 1, string options as a non-interned equal copy or a
+           np.str_, on two calls out of three.
   negzero  on a third of the calls the zeros of float arguments are stored as -0.0.
   lock     on half of the judged calls the argument buffers are read-only: a write into the caller's array -- even
            one undone before returning -- raises ("assignment destination is read-only") and is booked as a C13
@@ -139,6 +140,17 @@ class History(object):
         n = self.n.get(name, 0)
         done = None
         for k, v in list(bound.arguments.items()):
+            if type(v) is str and len(v) > 1 and k != 'copy':
+                # an option value that travelled (read from a file, lower()-ed, a numpy string): equal, not identical
+                mode = _pick(name, n, 's' + k) % 3
+                if mode == 1:
+                    bound.arguments[k] = ''.join(list(v))
+                elif mode == 2:
+                    bound.arguments[k] = np.str_(v)
+                if mode:
+                    done = (done or {})
+                    done[k] = type(bound.arguments[k]).__name__
+                    self.stats['respelled_flags'] += 1
             if type(v) is bool and k != 'copy':
                 mode = _pick(name, n, 'b' + k) % 3
                 if mode == 1:
